@@ -386,7 +386,7 @@ PROTOS = {
 def scenarios(tier="quick"):
     out = []
     for key, proto in PROTOS.items():
-        for k in ((1,) if tier == "quick" else (0, 2, 3)):
+        for k in ((1,) if tier == "quick" else (0, 1)):
             rp = PcwReplay(_pcw_op_factory(proto), _pcw_extra_factory(proto, k), _pcw_patch_factory(proto))
             out.append(Scenario("PointCloudWriter new; %d x add_point; finalize — prototype %s, any values, any writer state" % (k, key),
                                 pcw_scenario(proto, k), pcw_claims, max_paths=600, time_budget=900, replayer=rp))
